@@ -10,13 +10,16 @@ import (
 
 // FSpec is a filter tree written as plain data.
 type FSpec struct {
-	Op    string   `json:"o"`
-	Field string   `json:"f,omitempty"`
-	Val   *Val     `json:"v,omitempty"`    // attribute comparison value
-	Str   *string  `json:"s,omitempty"`    // to-one =/!= value, "has" value
-	Strs  []string `json:"list,omitempty"` // "in" list, to-many =/!= value
-	IsList bool    `json:"is_list,omitempty"`
-	Kids  []FSpec  `json:"kids,omitempty"`
+	Op     string   `json:"o"`
+	Field  string   `json:"f,omitempty"`
+	Val    *Val     `json:"v,omitempty"`    // attribute comparison value
+	Str    *string  `json:"s,omitempty"`    // to-one =/!= value, "has" value
+	Strs   []string `json:"list,omitempty"` // "in" list, to-many =/!= value
+	IsList bool     `json:"is_list,omitempty"`
+	Kids   []FSpec  `json:"kids,omitempty"`
+	// KidsVal: the value is the list of built Kids although the operator is not "and"/"or" (a case variant such as
+	// "AND": an unknown operator, which allows nothing whatever its value is)
+	KidsVal bool `json:"kids_val,omitempty"`
 }
 
 // build materialises the filter for the library (fresh slices every time:
@@ -31,6 +34,12 @@ func (f *FSpec) build() *jsonapi.Filter {
 		}
 		out.Val = kids
 		out.Field = ""
+	case f.KidsVal:
+		kids := []*jsonapi.Filter{}
+		for i := range f.Kids {
+			kids = append(kids, f.Kids[i].build())
+		}
+		out.Val = kids
 	case f.Val != nil:
 		out.Val = f.Val.Go()
 	case f.IsList:
@@ -193,6 +202,22 @@ func genLeaf(r *RNG, t *TypeSpec, rs *ResSpec) FSpec {
 	if nf == 0 {
 		return FSpec{Op: "and"}
 	}
+	if r.Chance(1, 40) {
+		// degenerate leaves: the zero filter (what "filter={}" decodes to), an operator without a field, case
+		// variants of the combinators with a list of filters as value. None of them names a field of the type
+		// with a known operator: each allows nothing.
+		switch r.Intn(4) {
+		case 0:
+			return FSpec{}
+		case 1:
+			return FSpec{Op: []string{"=", "!=", "<"}[r.Intn(3)]}
+		case 2:
+			return FSpec{Op: []string{"AND", "And", "OR", "Or"}[r.Intn(4)], KidsVal: true}
+		default:
+			k := genLeaf(r, t, rs)
+			return FSpec{Op: []string{"AND", "And", "OR", "Or"}[r.Intn(4)], KidsVal: true, Kids: []FSpec{k}}
+		}
+	}
 	i := r.Intn(nf)
 	if i < len(t.Attrs) {
 		a := t.Attrs[i]
@@ -206,7 +231,7 @@ func genLeaf(r *RNG, t *TypeSpec, rs *ResSpec) FSpec {
 		}
 		op := ops[r.Intn(len(ops))]
 		if r.Chance(1, 12) {
-			op = []string{"~", "", "like", "=="}[r.Intn(4)]
+			op = []string{"~", "", "like", "==", "IN", "HAS", "AND", "Or", " =", "= "}[r.Intn(10)]
 		}
 		return FSpec{Op: op, Field: a.Name, Val: &v}
 	}
